@@ -125,6 +125,7 @@ structure Sys where
   cyc : Option CycState
   adapters : List (String × Adapter) := []
   deferred : List Nat := []         -- collect ids whose commit was first seen in a second drain pass
+  carried : List Cmd := []          -- drops / span sets first seen in a second drain pass that wait for the next cycle
   g : Ghost := {}                   -- history variables (ghost)
 deriving Repr, Inhabited
 
@@ -385,18 +386,68 @@ def Cmd.isCommit : Cmd → Bool
   | .commit _ => true
   | _ => false
 
-/-- processing + report once the drain is complete.  The batch is: the commits deferred by the
-    previous cycle, everything popped in the first pass, and everything popped in the second
-    pass **except commits**, which wait for the next cycle (what precedes them on other threads
-    may not have been drained yet).  Without a reporter everything is discarded. -/
+/-- the record of a thread-safe `Span` (its events and properties arrive in other commands) -/
+def SpanSet.isSpanRecord : SpanSet → Bool
+  | .span r => r.kind == .span
+  | _ => false
+
+def Coll.known (c : Coll) (id : Nat) : Bool := (c.find? id).isSome
+
+/-- does this token item of a second-pass span set wait for the next cycle?  Yes if its trace is not
+    (or no longer) active — its start may still be in a channel — and, without `cancelable`, if the
+    set is the record of a thread-safe span whose trace is not committed in this cycle (attachments
+    made before it finished may still be in a channel). -/
+def carryItem (cancelable : Bool) (c2 : Coll) (committing : List Nat) (spans : SpanSet) (it : TokenItem) : Bool :=
+  !c2.known it.collectId || (!cancelable && spans.isSpanRecord && !committing.contains it.collectId)
+
+/-- A command that only shows up in the second drain pass may be younger than commands still in
+    the channels (the start of its own trace; without `cancelable` an attachment made before the
+    span finished).  It is handled in this cycle only where a commit of this cycle needs it;
+    otherwise it waits for the next cycle.  `c1` = collector after this cycle's starts (decides
+    drops), `c2` = after its drops too (decides span sets, per token item), `committing` = the
+    collect ids committed in this cycle.  Returns (handled now, carried). -/
+def splitSecond (cancelable : Bool) (c1 c2 : Coll) (committing : List Nat) : List Cmd → List Cmd × List Cmd
+  | [] => ([], [])
+  | cmd :: rest =>
+    let (now, later) := splitSecond cancelable c1 c2 committing rest
+    match cmd with
+    | .start _ => (cmd :: now, later)
+    | .commit _ => (now, later)                 -- deferred separately (`Sys.deferred`)
+    | .drop id => if c1.known id then (cmd :: now, later) else (now, cmd :: later)
+    | .submit spans tok =>
+      let tokLater := tok.filter (carryItem cancelable c2 committing spans)
+      let tokNow := tok.filter (fun it => !carryItem cancelable c2 committing spans it)
+      ((if tokNow.isEmpty then now else .submit spans tokNow :: now),
+       (if tokLater.isEmpty then later else .submit spans tokLater :: later))
+
+/-- of the second pass: what this cycle handles, and what it carries over to the next cycle -/
+def Sys.cycleSplit (s : Sys) (buf buf2 : List Cmd) : List Cmd × List Cmd :=
+  let first := s.carried ++ buf
+  let committing := s.deferred ++ commitsOf buf
+  let c1 := (startsOf (first ++ buf2)).foldl (fun c id => c.insert id Active.empty) s.coll
+  let drops2 := (dropsOf buf2).filter c1.known
+  let c2 := (dropsOf first ++ drops2).foldl (fun c id => if c.cancelable then c.remove id else c) c1
+  splitSecond s.coll.cancelable c1 c2 committing buf2
+
+/-- what a cycle hands to the processing loops: the commits deferred by the previous cycle, what the
+    previous cycle carried over, everything popped in the first pass, and of the second pass what
+    `splitSecond` lets through -/
+def Sys.cycleBatch (s : Sys) (buf buf2 : List Cmd) : List Cmd :=
+  s.deferred.map Cmd.commit ++ (s.carried ++ buf) ++ (s.cycleSplit buf buf2).1
+
+/-- processing + report once the drain is complete.  Commits of the second pass wait for the next
+    cycle (`deferred`), so do the carried commands (`carried`).  Without a reporter everything is
+    discarded. -/
 def Sys.finishCycle (s : Sys) (kept : List (Nat × Ring Cmd)) (buf buf2 : List Cmd) : Sys × Option (List Record) :=
-  let batch := s.deferred.map Cmd.commit ++ buf ++ buf2.filter (fun c => !c.isCommit)
+  let batch := s.cycleBatch buf buf2
+  let later2 := (s.cycleSplit buf buf2).2
   let (coll, rep) := cycleProcess id s.coll batch
   (({ s with coll := coll, rxs := kept, cyc := none,
-             deferred := if s.coll.hasReporter then commitsOf buf2 else [] } : Sys).withG
+             deferred := if s.coll.hasReporter then commitsOf buf2 else [],
+             carried := if s.coll.hasReporter then later2 else [] } : Sys).withG
      (if s.coll.hasReporter then
         { s.g with consumed := batch ++ s.g.consumed, reported := rep.getD [] ++ s.g.reported }
-      else { s.g with discarded := batch ++ buf2.filter Cmd.isCommit ++ s.g.discarded }), rep)
+      else { s.g with discarded := batch ++ later2 ++ buf2.filter Cmd.isCommit ++ s.g.discarded }), rep)
 
 /-- the whole drain at once (no operation falls inside it) -/
 def drainAll : List (Nat × Ring Cmd) → List (Nat × Ring Cmd) × List Cmd
